@@ -765,13 +765,27 @@ func checkSelectedKeyUsedUnderLock(c *Ctx, rule string) {
 		// uses: calls whose receiver derives from the selection result
 		for _, ci := range callsOf(fn) {
 			use, ok := ci.(*ssa.Call)
-			if !ok || !use.Call.IsInvoke() {
+			if !ok {
+				continue
+			}
+			// the key is the receiver of an interface call, or the receiver argument of a method expression held in a
+			// function value (`op(key, in)` with op = EncryptorDecryptor.Encrypt)
+			var keyVals []ssa.Value
+			method := ""
+			switch {
+			case use.Call.IsInvoke():
+				keyVals, method = []ssa.Value{use.Call.Value}, use.Call.Method.Name()
+			case use.Call.StaticCallee() == nil && len(use.Call.Args) > 0:
+				keyVals, method = []ssa.Value{use.Call.Args[0]}, "op"
+			default:
 				continue
 			}
 			derives := false
-			for _, o := range (&Slicer{P: p, KeepExtract: true}).Origins(use.Call.Value) {
-				if ex, ok := o.(*ssa.Extract); ok && ex.Tuple == ssa.Value(selCall) {
-					derives = true
+			for _, kv := range keyVals {
+				for _, o := range (&Slicer{P: p, KeepExtract: true}).Origins(kv) {
+					if ex, ok := o.(*ssa.Extract); ok && ex.Tuple == ssa.Value(selCall) {
+						derives = true
+					}
 				}
 			}
 			if !derives {
@@ -780,7 +794,7 @@ func checkSelectedKeyUsedUnderLock(c *Ctx, rule string) {
 			n++
 			held, why := p.heldUpward(use, 0, map[*ssa.Function]bool{})
 			ok2 := held["waddrmgr.Manager.mtx"] || held["waddrmgr.Manager.mtx(R)"]
-			c.Check(rule, "selected-key-used-under-manager-lock:"+fnName(fn)+"/"+use.Call.Method.Name(), use.Pos(), ok2,
+			c.Check(rule, "selected-key-used-under-manager-lock:"+fnName(fn)+"/"+method, use.Pos(), ok2,
 				fmt.Sprintf("%s uses the key returned by selectCryptoKey without holding the manager mutex (held: %s; %s): a concurrent Lock() zeroes that key in place, and the operation then succeeds under the all-zero key", fnName(fn), lsString(held), strings.Join(why, "; ")))
 		}
 	}
@@ -2160,7 +2174,11 @@ func checkAddressLookupsNormalisePayToPubKey(c *Ctx, rule string) {
 	}
 	var resolve func(v ssa.Value, depth int, o *origin)
 	resolve = func(v ssa.Value, depth int, o *origin) {
-		for _, t := range (&Slicer{P: p}).Origins(v) {
+		// (the normalisation may live in a private helper of the package: what it can return is looked at)
+		sl := &Slicer{P: p, ThroughReturns: func(g *ssa.Function) bool {
+			return fnPkgPath(g) == rootMod+"/waddrmgr" && g.Object() != nil && !g.Object().Exported()
+		}}
+		for _, t := range sl.Origins(v) {
 			switch x := t.(type) {
 			case *ssa.Call:
 				if x.Call.IsInvoke() && x.Call.Method.Name() == "AddressPubKeyHash" || calleeShort(&x.Call) == "AddressPubKeyHash" {
@@ -2339,11 +2357,32 @@ func checkIssuingTransactionKeepsAccountCache(c *Ctx, rule string) {
 	c.Floor(rule, "address-issuing functions of the wallet", n, 4)
 }
 
-// isDryRunOnly: the transaction closure g can only end in a rollback — it has no return that reports success.
+// isDryRunOnly: g runs only inside a database transaction that can only end in a rollback: g is a transaction closure
+// without a return that reports success, or a private part called only from such closures (or from parts of them).
 func isDryRunOnly(p *Program, g *ssa.Function) bool {
-	if g.Parent() == nil || g.Signature.Results().Len() != 1 {
-		return false
+	var rec func(g *ssa.Function, depth int) bool
+	rec = func(g *ssa.Function, depth int) bool {
+		if depth > 3 {
+			return false
+		}
+		if g.Parent() != nil {
+			res := g.Signature.Results()
+			if res.Len() != 1 || !isErrorType(res.At(0).Type()) {
+				return false
+			}
+			q := &PathQuery{Fn: g, Target: p.nonErrorReturn()}
+			return len(q.From(nil)) == 0
+		}
+		if g.Object() == nil || g.Object().Exported() {
+			return false
+		}
+		sites := p.realCallers(g)
+		for _, cs := range sites {
+			if !rec(cs.Parent(), depth+1) {
+				return false
+			}
+		}
+		return len(sites) > 0
 	}
-	q := &PathQuery{Fn: g, Target: p.nonErrorReturn()}
-	return len(q.From(nil)) == 0
+	return rec(g, 0)
 }
